@@ -1075,7 +1075,9 @@ impl DistanceFromLeaf {
                 return distance;
             }
             let children = element.children();
-            assert!(!children.is_empty());
+            if children.is_empty() {
+                return distance;        // an element without children (e.g., "none", "mprescripts", an empty mrow) ends the walk like a leaf
+            }
             element = as_element( if use_left_side {children[0]} else {children[children.len()-1]} );
             distance += 1;
         }
